@@ -557,5 +557,162 @@ def r11_guard_slice_agreement(chk):
     chk.floor('C05.R11', 1, 'length-guarded slices')
 
 
+def r12_defval_decision_table(chk):
+    """which conversion a DEFVAL gets is decided by its notation (and, for labels, by the base type of the object)"""
+    model = chk.model
+    ci = model.cls(INTER, 'IntermediateCodeGen')
+    mod = ci.mod
+    o, fn = ci.find_method('genDefVal')
+    chk.doc('C05.R12', 'genDefVal decision table: every store of format=F lies on the positive branch of the notation '
+                       'test for F and on no positive branch of another notation (number -> decimal, value as is; hex '
+                       'literal -> hex digits, or their value when the base type is an integer; binary literal -> value '
+                       '(integer types) or hex digits; quoted -> string between the quotes; label -> oid / enum / bits '
+                       'by base type, only when all four notation tests fail), and the value stored is the conversion '
+                       'that belongs to that (notation, format) pair')
+    dp = fn.args.args[1].arg
+    asg = [s_ for s_ in walk_no_nested(fn) if isinstance(s_, ast.Assign)]
+    b = common.pfind([s_ for s_ in fn.body if isinstance(s_, ast.Assign)], '$dv = %s[0]' % dp)
+    dv = b['dv'] if b else None
+    b2 = common.pfind(asg, '$t = self.getBaseType(', full=False)
+    tv = b2['t'] if b2 else None
+    chk.ob('C05.R12', 'genDefVal/locals', bool(dv and tv), where(mod, fn), 'value / base-type locals not found')
+    if not (dv and tv):
+        return
+    atoms = [
+        ('N', 'isinstance(%s, (int, long))' % dv), ('H', 'self.isHex(%s)' % dv), ('B', 'self.isBinary(%s)' % dv),
+        ('Q', "%s[0] == %s[-1]" % (dv, dv)), ('Q2', "%s[0] == '\"'" % dv),
+        ('I', "%s[0][0] in ('Integer32', 'Integer')" % tv), ('O', "%s[0][0] == 'ObjectIdentifier'" % tv),
+        ('EL', 'isinstance(%s[1], list)' % tv), ('BITS', "%s[0][0] == 'Bits'" % tv),
+        ('L', 'isinstance(%s, list)' % dv), ('M', '%s in dict(%s[1])' % (dv, tv)), ('NE', dv),
+    ]
+    names = dict((t, a) for a, t in atoms)
+
+    def path_atoms(node):
+        pos, neg, unknown = set(), set(), []
+        for test, in_body in ir.guards_of(node, fn):
+            cjs = ir.conjuncts(test)
+            if in_body:
+                for cj in cjs:
+                    a = names.get(norm(cj))
+                    if a:
+                        pos.add(a)
+                    else:
+                        unknown.append(norm(cj)[:50])
+            else:
+                if len(cjs) == 1 and names.get(norm(cjs[0])):
+                    neg.add(names[norm(cjs[0])])
+                else:
+                    # the else-branch of an and-chain: at least one conjunct is false; recorded as the chain's name
+                    key = '&'.join(sorted(names.get(norm(cj), '?') for cj in cjs))
+                    neg.add(key)
+        return pos, neg, unknown
+    aliases = {}
+    for s_ in asg:
+        if len(s_.targets) == 1 and isinstance(s_.targets[0], ast.Name):
+            aliases.setdefault(s_.targets[0].id, []).append(s_.value)
+
+    def expand(e):
+        if isinstance(e, ast.Name) and e.id not in (dv, tv) and len(aliases.get(e.id, ())) == 1:
+            return expand(aliases[e.id][0])
+        return e
+
+    def vtext(e):
+        e = expand(e)
+        t = norm(e)
+        for nm, vals in aliases.items():
+            if len(vals) == 1 and nm not in (dv, tv):
+                import re as _re
+                t = _re.sub(r'\b%s\b' % _re.escape(nm), '(%s)' % norm(expand(vals[0])), t)
+        return t
+    notation_pos = {'decimal': {'N'}, 'string': {'Q', 'Q2'}, 'oid': {'O'}, 'bits': {'BITS'}, 'enum': {'I', 'EL'}}
+    LABEL_NEG = {'N', 'H', 'B', 'Q&Q2'}
+    stores = [s_ for s_ in ir.record_stores(fn) if s_.key == ('format',)]
+    chk.ob('C05.R12', 'genDefVal/format-stores', len(stores) >= 9, where(mod, fn), '%d format= stores' % len(stores))
+    seen = {}
+    for s_ in stores:
+        fmt = s_.value.value if isinstance(s_.value, ast.Constant) else None
+        pos, neg, unknown = path_atoms(s_.node)
+        vals = [x for x in ir.record_stores(fn) if x.node is s_.node and x.key == ('value',)]
+        val = vtext(vals[0].value) if vals else ''
+        notation = 'N' if 'N' in pos else 'H' if 'H' in pos else 'B' if 'B' in pos else 'Q' if 'Q' in pos else 'label'
+        problems = []
+        if len(pos & {'N', 'H', 'B', 'Q'}) > 1:
+            problems.append('lies on the positive branch of two notation tests %s' % sorted(pos & {'N', 'H', 'B', 'Q'}))
+        want_val = None
+        if notation == 'N':
+            ok_fmt = fmt == 'decimal'
+            want_val = [dv]
+        elif notation == 'H':
+            ok_fmt = fmt == 'hex'
+            if 'I' in pos:
+                want_val = ["str(int(len(%s) > 3 and %s[1:-2] or '0', 16))" % (dv, dv),
+                            "str(int(len(%s) > 3 and (%s[1:-2]) or '0', 16))" % (dv, dv)]
+            elif 'I' in neg:
+                want_val = ['%s[1:-2]' % dv, '(%s[1:-2])' % dv]
+            else:
+                problems.append('hex literal: neither branch of the integer-type test')
+        elif notation == 'B':
+            if 'I' in pos:
+                ok_fmt = fmt == 'bin'
+                want_val = ["str(int((%s[1:-2]) or '0', 2))" % dv, "str(int(%s[1:-2] or '0', 2))" % dv]
+            elif 'I' in neg:
+                ok_fmt = fmt == 'hex'
+                want_val = ["(%s[1:-2]) and hex(int((%s[1:-2]), 2))[2:] or ''" % (dv, dv)]
+            else:
+                ok_fmt = False
+                problems.append('binary literal: neither branch of the integer-type test')
+        elif notation == 'Q':
+            ok_fmt = fmt == 'string' and 'Q2' in pos
+            want_val = ['%s[1:-1]' % dv]
+        else:
+            ok_fmt = fmt in ('oid', 'enum', 'bits') and LABEL_NEG <= neg
+            if not LABEL_NEG <= neg:
+                problems.append('label conversion reachable although a literal notation test holds (missing %s)' %
+                                sorted(LABEL_NEG - neg))
+            if fmt == 'oid':
+                ok_fmt = ok_fmt and 'O' in pos
+                want_val = None
+                ok_v = "self.genNumericOid(self.symbolTable[" in val and "][%s]['oid']" % dv in val
+                if not ok_v:
+                    problems.append('oid value is %s' % val[:60])
+            elif fmt == 'enum':
+                ok_fmt = ok_fmt and {'I', 'EL'} <= pos and not ('O' in pos)
+                if 'L' in pos:
+                    want_val = ['%s[0]' % dv]
+                    if 'NE' not in pos:
+                        problems.append('first member taken without testing that one is left')
+                elif 'M' in pos:
+                    want_val = [dv]
+                else:
+                    problems.append('enumeration label stored without the membership test')
+            elif fmt == 'bits':
+                ok_fmt = ok_fmt and 'BITS' in pos and 'O' not in pos
+                want_val = None
+                if not val.startswith('self.genBits([') or not val.endswith('])[1]'):
+                    problems.append('bits value is %s' % val[:60])
+        if not ok_fmt:
+            problems.append('format %r stored for notation %s (positive tests %s)' % (fmt, notation, sorted(pos)))
+        if want_val is not None and val not in want_val:
+            problems.append('value %s, expected %s' % (val[:70], want_val[0]))
+        key = '%s->%s%s' % (notation, fmt, '/int' if 'I' in pos and notation in 'HB' else '/list' if 'L' in pos else '')
+        seen[key] = seen.get(key, 0) + 1
+        chk.ob('C05.R12', 'genDefVal/%s' % key, not problems, where(mod, s_.node), '; '.join(problems))
+    need = ['N->decimal', 'H->hex/int', 'H->hex', 'B->bin/int', 'B->hex', 'Q->string', 'label->oid', 'label->enum',
+            'label->enum/list', 'label->bits']
+    missing = [k for k in need if k not in seen]
+    chk.ob('C05.R12', 'genDefVal/all-conversions-present', not missing, where(mod, fn), 'missing: %s' % missing)
+    # the empty-string special case: only for non-OctetString types
+    rets = [x for x in walk_no_nested(fn) if isinstance(x, ast.Return) and isinstance(x.value, ast.Dict) and
+            not x.value.keys]
+    for x in rets:
+        g = ir.guards_of(x, fn)
+        if not g or norm(g[-1][0]).startswith('not '):
+            continue
+        t = [norm(c_) for c_ in ir.conjuncts(g[-1][0])] if g[-1][1] else None
+        chk.ob('C05.R12', 'genDefVal/empty-string-dropped-only-for-non-strings', t == [
+            "%s[1:-1] == ''" % dv, "%s[0][0] != 'OctetString'" % tv], where(mod, x), 'guard %s' % t)
+
+
 RULES = [r1_number_classifier, r2_value_alternatives, r3_literal_conversion, r4_ranges, r5_enum_bits,
-         r7_base_type_walk, r8_defval, r9_syntax_productions, r10_collectors, r11_guard_slice_agreement]
+         r7_base_type_walk, r8_defval, r9_syntax_productions, r10_collectors, r11_guard_slice_agreement,
+         r12_defval_decision_table]
